@@ -45,7 +45,7 @@ Clause(o, m, hasd, r, e) ==
     ELSE IF e.held THEN "DisposeOutsideLock"
     ELSE IF e.n > m THEN "Bound"
     ELSE IF e.n # Len(r.order) THEN "ReferenceState"
-    ELSE IF SeqToSet(e.ks) # KeySet(r.order) THEN (IF e.op \in {"get", "getd"} THEN "ReferenceState" ELSE "LRUOrder")
+    ELSE IF SeqToSet(e.ks) # KeySet(r.order) THEN (IF e.op \in {"get", "getd", "has"} THEN "ReferenceState" ELSE "LRUOrder")
     ELSE IF e.hasord /\ e.ord # r.order THEN "LRUOrder"
     ELSE "ok"
 
